@@ -4,6 +4,7 @@
 mod builders;
 mod convert;
 mod layouts;
+mod lifecycle;
 
 use std::collections::BTreeMap;
 
@@ -68,6 +69,7 @@ fn main() {
         "layouts" => layouts::run(&mut rep, seed, big),
         "builders" => builders::run(&mut rep, seed, big),
         "convert" => convert::run(&mut rep, seed, big),
+        "lifecycle" => lifecycle::run(&mut rep, seed, big),
         t => {
             eprintln!("unknown table {}", t);
             std::process::exit(2);
